@@ -14,7 +14,18 @@
    schedules, so it is not modelled.  What readers saw goes into the ghost log
    [c_obs].  [c_exh] is a ghost counter as well: it counts the SetWithCap calls
    that returned because the spill loop had visited every segment although they
-   had evicted nothing (a fruitless full-ring scan) — see occupancy_bound.
+   had evicted nothing (a fruitless full-ring scan) and that nothing has made up
+   for since: it goes up by one at such a return, down by one (never below 0) for
+   every entry removed beyond an over-capacity insert's first eviction (its second
+   eviction, a Remove / CompareAndDelete that hits, entries dropped by Clear) and
+   back to 0 whenever a SetWithCap call loads the counter and finds it within the
+   capacity — see occupancy_bound.
+
+   [rescan] selects the spill loop: false = the loop of /repo as it stands
+   (for i := 1; i < len(segments) && deficit > 0; i++), true = the repaired loop of
+   props/C16/fix.patch (… && (i < len(segments) || (deficit == 2 && capacity > 0))):
+   a writer that has been round the ring without evicting anything while the count
+   is still above the capacity goes round again, own segment included.
 
    SetWithCap (Go lines in segment_uint64_map.go):
      SwcLock : rwlock.Lock(); oldSize; data.Put             (own segment)
@@ -95,6 +106,13 @@ Section Step.
   Variable mix : N -> N.
   Variable sidx : nat -> N -> nat.
   Variable eoff : N -> Z.
+  Variable rescan : bool.
+
+  (* c_exh after [r] removals that nothing owes any more *)
+  Definition repay (exh r : Z) : Z := Z.max 0 (exh - Z.max r 0).
+  (* the spill loop's condition *)
+  Definition sp_continue (n i : nat) (cap deficit : Z) : bool :=
+    (0 <? deficit)%Z && ((i <? n) || (rescan && (evict_toll <=? deficit)%Z && (1 <=? cap)%Z)).
 
   Definition lock_free (s : cstate) (j : nat) : bool :=
     match nth j (c_locks s) None with None => true | Some _ => false end.
@@ -150,16 +168,19 @@ Section Step.
         let i := sidx n k in
         if (cap <? cnt)%Z then
           let '(t2, d) := tevict mix (seg m i) (eoff k) evict_toll k in
-          Some (with_pc s tid (set_seg m i t2 cnt) (c_locks s) (SwcSub k cap d) rest)
-        else Some (with_pc s tid m (lupd i None (c_locks s)) Idle rest)
+          Some (with_ghost (with_pc s tid (set_seg m i t2 cnt) (c_locks s) (SwcSub k cap d) rest)
+                           (repay (c_exh s) (d - 1)) (c_obs s))
+        else Some (with_ghost (with_pc s tid m (lupd i None (c_locks s)) Idle rest) 0%Z (c_obs s))
     | SwcSub k cap d =>
         let i := sidx n k in
         let deficit := (evict_toll_deficit - d)%Z in
         Some (with_pc s tid (mk_segmap (sm_segs m) (if (0 <? d)%Z then cnt - d else cnt)%Z) (lupd i None (c_locks s))
                       (if (deficit <=? 0)%Z then Idle else SpLoad k cap 1 deficit) rest)
     | SpLoad k cap i deficit =>
-        if (i <? n) && (0 <? deficit)%Z
-        then Some (with_pc s tid m (c_locks s) (if (cnt <=? cap)%Z then Idle else SpEvict k cap i deficit) rest)
+        if sp_continue n i cap deficit
+        then (if (cnt <=? cap)%Z
+              then Some (with_ghost (with_pc s tid m (c_locks s) Idle rest) 0%Z (c_obs s))
+              else Some (with_pc s tid m (c_locks s) (SpEvict k cap i deficit) rest))
         else (* loop over; with deficit > 0 it ran out of segments: ghost count *)
           Some (with_ghost (with_pc s tid m (c_locks s) Idle rest)
                            (c_exh s + Z.max (deficit - 1) 0)%Z (c_obs s))
@@ -167,7 +188,8 @@ Section Step.
         let j := Nat.modulo (sidx n k + i) n in
         if lock_free s j then
           let '(t', d) := tevict mix (seg m j) (eoff k) deficit k in
-          Some (with_pc s tid (set_seg m j t' cnt) (c_locks s) (SpSub k cap i deficit d) rest)
+          Some (with_ghost (with_pc s tid (set_seg m j t' cnt) (c_locks s) (SpSub k cap i deficit d) rest)
+                           (repay (c_exh s) (d - (Z.max (deficit - 1) 0 - Z.max (deficit - d - 1) 0))) (c_obs s))
         else None
     | SpSub k cap i deficit d =>
         if (0 <? d)%Z
@@ -177,15 +199,17 @@ Section Step.
         let i := sidx n (call_key c) in
         if lock_free s i then
           let '(t', delta) := table_op (seg m i) c in
-          Some (with_pc s tid (set_seg m i t' cnt) (lupd i (Some tid) (c_locks s)) (OpAdd i delta) rest)
+          Some (with_ghost (with_pc s tid (set_seg m i t' cnt) (lupd i (Some tid) (c_locks s)) (OpAdd i delta) rest)
+                           (repay (c_exh s) (- delta)) (c_obs s))
         else None
     | OpAdd i delta =>
         Some (with_pc s tid (mk_segmap (sm_segs m) (cnt + delta)%Z) (lupd i None (c_locks s)) Idle rest)
     | ClrSeg i =>
         if i <? n then
           if lock_free s i
-          then Some (with_pc s tid (set_seg m i (tclear (seg m i)) cnt) (lupd i (Some tid) (c_locks s))
-                             (ClrSub i (tlen (seg m i))) rest)
+          then Some (with_ghost (with_pc s tid (set_seg m i (tclear (seg m i)) cnt) (lupd i (Some tid) (c_locks s))
+                                         (ClrSub i (tlen (seg m i))) rest)
+                                (repay (c_exh s) (tlen (seg m i))) (c_obs s))
           else None
         else Some (with_pc s tid m (c_locks s) Idle rest)
     | ClrSub i d =>
@@ -223,3 +247,11 @@ Section Step.
   Definition inside (s : cstate) : Z :=
     Z.of_nat (length (filter (fun th => match fst th with Idle => false | _ => true end) (c_thr s))).
 End Step.
+
+(* Which spill loop the source has (see the comment at gen_spill_cond_known in Proofs_conc.v) *)
+Definition spill_cond_plain : list N := [105;32;60;32;117;105;110;116;40;108;101;110;40;109;46;115;101;103;109;101;110;116;115;41;41;32;38;38;32;100;101;102;105;99;105;116;32;62;32;48]%N.
+Definition spill_cond_rescan : list N := [100;101;102;105;99;105;116;32;62;32;48;32;38;38;32;40;105;32;60;32;110;32;124;124;32;40;100;101;102;105;99;105;116;32;61;61;32;50;32;38;38;32;99;97;112;97;99;105;116;121;32;62;32;48;41;41]%N.
+Fixpoint listN_eqb (a b : list N) : bool :=
+  match a, b with [], [] => true | x :: r, y :: s => N.eqb x y && listN_eqb r s | _, _ => false end.
+Definition go_rescan : bool :=
+  match spill_cond_src with [c] => listN_eqb c spill_cond_rescan | _ => false end.
